@@ -371,6 +371,24 @@ func (g *Gen) pool(t *Type, env map[int]*Type, depth int) []*Val {
 				out = append(out, mk(k1, v0, k2, v1), mk(k1, v1, k2, v0), mk(k0, v1, k2, v0), mk(k2, v0, k1, v1))
 			}
 		}
+		// an element value that owns memory (the first pool entries of slices/maps are nil and empty)
+		ep := g.pool(t.Elem, env, depth-1)
+		rich := ep[0]
+		for _, c := range ep {
+			if len(c.Sexp()) > len(rich.Sexp()) {
+				rich = c
+			}
+		}
+		if rich != ep[0] {
+			out = append(out, mk(k0, rich))
+			if len(keys) > 1 {
+				out = append(out, mk(keys[1], v0, k0, rich), mk(k0, rich, keys[1], rich))
+			}
+		}
+		// two different string keys with the same derived hash (31*'A'+'a' = 31*'B'+'B')
+		if u := t.Key.Under(env); u.K == KBasic && u.Basic == "string" {
+			out = append(out, mk(vs("Aa"), v0, vs("BB"), v1), mk(vs("BB"), v1, vs("Aa"), v0), mk(vs("BB"), v0, vs("Aa"), v1))
+		}
 		// a -0 key where +0 is in the pool (same key under ==, different bits)
 		for _, k := range kp {
 			if k.K == "f" && k.Mag == 0 && k.Neg {
